@@ -66,6 +66,18 @@ LEVELS = ("per_sample_unit", "per_data_generation", "per_estimator_unit", "per_e
 ONLY_PHYS = {"consistency": False, "mse_of_estimators": False, "mse_of_empi_dists": False, "physicality_violation": True}
 
 
+
+LEAN_EXTRA_SOURCES = ("C15Gen.lean",)
+LEAN_EXTRA_TARGETS = ("QGen.C15",)
+
+
+def translate(ctx):
+    """regenerate lean/QGen/C15.lean from /repo's sources (c15_translate.py); QProps/C15.lean proves the discipline the model
+    assumes about the regenerated tables"""
+    import c15_translate
+    return c15_translate.translate()
+
+
 @contextlib.contextmanager
 def quiet():
     """silence the library's progress output, including what joblib workers write to the inherited descriptors"""
